@@ -18,7 +18,7 @@ FieldsSame(exp, obs) ==      \* exp = <<Fields, FieldsNotLocal>> with lower/uppe
              IN /\ { Name(p) : p \in exp[k][2] } \subseteq got
                 /\ got \subseteq { Name(p) : p \in exp[k][3] }
 EventOK(e) ==
-  IF e.w[1] \in {"eval", "evaldeep", "parse"} THEN Same(Expected(e.w), e.out) ELSE FieldsSame(Expected(e.w), e.out)
+  IF e.w[1] \in {"eval", "evaldeep", "parse"} THEN (IF Expected(e.w)[1] = "unspec" THEN e.out[1] \in {"ok", "err"} ELSE Same(Expected(e.w), e.out)) ELSE FieldsSame(Expected(e.w), e.out)
 
 Init == i = 1 /\ bad = <<>>
 StepEvent == /\ i <= Len(Trace) /\ i' = i + 1
